@@ -13,7 +13,9 @@ U = {"u": None}
 class _U:
     @staticmethod
     def sample(a, b, sample_shape=()):
-        return jnp.asarray(U["u"]) if U["u"] is not None else jrand.uniform(_next(), tuple(sample_shape), minval=a, maxval=b)
+        # U["u"] is the draw's QUANTILE in the unit interval: the value handed out respects the bounds the code asked for
+        # (an implementation may draw U(0,1) and divide by n, or draw U(0, 1/n) directly)
+        return a + jnp.asarray(U["u"]) * (b - a) if U["u"] is not None else jrand.uniform(_next(), tuple(sample_shape), minval=a, maxval=b)
 class _C:
     @staticmethod
     def sample(logits, sample_shape=()):
@@ -59,6 +61,23 @@ for u in (0.5, 0.93, 0.97, 0.995, 0.9999):
     if not ok:
         bad = [int(i) for i in _np.nonzero(~_np.isfinite(x) | ~_np.isclose(rv, src * 100.0))[0][:3]]
         fails.append({"weights": "1000 log weights ~ N(-3000, 2) (float32)", "method": "systematic", "u": u, "output_particles_that_are_no_copy_of_an_input_particle": bad, "their_x": [float(x[i]) for i in bad]})
+# every particle count: the resampled collection has exactly N particles (an implementation that builds its N pointers
+# with floating-point arithmetic must not gain or lose one for particular N)
+for n in [1, 2, 3, 5, 7, 10, 16, 33, 49, 50, 64, 98, 100, 103, 107, 128, 161, 187, 196, 250, 500, 1000]:  # incl. counts where 1/(1/N) rounds above N
+    lw = jnp.zeros(n)
+    tr = Tr(f, ((), {}), {"x": jnp.arange(n) * 10.0}, jnp.arange(n) * 100.0, jnp.arange(n) * 1.0)
+    pc = S.ParticleCollection(traces=tr, log_weights=lw, diagnostic_weights=lw, n_samples=const(n), log_marginal_estimate=jnp.array(0.7))
+    U["u"] = 0.5
+    try:
+        r = S.resample(pc, method="systematic")
+        shapes = [tuple(v.shape) for v in jax.tree_util.tree_leaves(r.traces)] + [tuple(r.log_weights.shape)]
+        src = _np.asarray(r.traces._choices["x"]) / 10.0
+        if any(sh[:1] != (n,) for sh in shapes) or (len(src) == n and not _np.array_equal(_np.sort(src), _np.arange(n))):
+            fails.append({"weights": "%d equal weights" % n, "method": "systematic", "u": 0.5, "observed_leading_dims": sorted(set(sh[0] for sh in shapes)), "required": n})
+            break
+    except Exception as e:  # noqa: BLE001
+        fails.append({"weights": "%d equal weights" % n, "method": "systematic", "observed": "raised %s: %s" % (type(e).__name__, str(e)[:160]), "required": "N particles"})
+        break
 # particles whose weight is exactly 0 (log weight -inf: a hard-zero likelihood) still count in the average weight:
 # log_marginal_likelihood = estimate + log( (1/N) sum_i w_i ), for every N and every number of dead particles
 for lw_list in ([0.3, -jnp.inf, -0.7, -jnp.inf], [-jnp.inf, 0.1], [0.2, 0.4, -jnp.inf]):
